@@ -1,6 +1,8 @@
 HOOK_COMMITS = []
 NOTES = "Model checking = bounded exhaustive exploration of the real code against reference models; see DESIGN.md. Exit 0 held / 1 violation / >=2 machinery failure."
 ENGINES = [
+    {"name": "vc_state", "path": "harness/src/engines/vc_state.rs", "serves_properties": ["C12"],
+     "kind_free_text": "explicit-state BFS with state deduplication; implementation = real executor + bash, reference model = one bash session"},
     {"name": "vc_io", "path": "harness/src/engines/vc_io.rs", "serves_properties": ["C13"],
      "kind_free_text": "exhaustive enumeration of payload/stream/code/settings/executor tuples and short test-case sequences through real executors + bash"},
     {"name": "vc_render", "path": "harness/src/engines/vc_render.rs", "serves_properties": ["C19"],
@@ -94,5 +96,10 @@ CHECKS.append(
      "technique": "bounded exhaustive enumeration of (payload x stream x exit code x settings x executor) and of test-case sequences through the real executors with the real bash, compared with a byte-exact reference of the documented transformations",
      "text": "Every combination of the payload alphabet (binary, CRLF shapes, ANSI, divider look-alikes, unterminated lines, ...), target stream, exit code, output_stream/keep_crlf/strip_ansi setting and executor (per-process and single-script) is executed with /bin/bash; recorded stdout/stderr/exit code must equal the reference exactly, per test case also in sequences; placeholder-looking and quote-heavy text must reach the shell verbatim; replace_crlf is compared with an iterative reference on all short byte strings and at sizes up to 10^6 line endings.",
      "note": "/bin/bash of this image; sizes at decades; strip-ansi third-party over-stripping recorded as known finding"})
+CHECKS.append(
+    {"id": "C12", "engine": "vc_state", "category": "model_checking", "design_ref": "DESIGN.md §2 C12",
+     "technique": "explicit-state breadth-first search over canonical shell states (deduplicated on the reference probe output); every transition executed on the real StatefulExecutor+BashRunner with real bash and compared with a single-bash-session reference model",
+     "text": "States are canonical probe outputs of one bash session; from every reached state every snippet of the 30-snippet alphabet is applied; each transition is run through the real executor (one bash process per test case, state file in between) and its probe output must equal that of ONE bash session fed the same snippets (detached snippets omitted there). Reports states, transitions and that every transition was validated against the implementation.",
+     "note": "/bin/bash of this image; depth-bounded (quick: all transitions from states at depth < 2, thorough: < 3); read-only variables and -e/-x/-v excluded as documented"})
 claimed = {c["id"] for c in CHECKS}
 NOT_APPLICABLE = [{"property_id": p, "reason": "check not built yet (work in progress; planned in DESIGN.md)"} for p in ALL if p not in claimed]
